@@ -44,6 +44,8 @@ func (im *impl) Gen(h *vh.H, i int) string {
 		return im.genFuzz(h, i)
 	case "codec.stress":
 		return im.genStress(h, i)
+	case "codec.corpus":
+		return im.genCorpus(h, i)
 	}
 	return ""
 }
